@@ -37,7 +37,11 @@ pub fn plant_population(fs: &mut SimFs, t: &mut Tape, dir: &str, n: usize, prefi
     let spacing: i64 = *t.pick(&[1_000_000_000i64, 1, 137, 1_000_000, 2_000_000_000, 60_000_000_000]);
     let mut files = Vec::new();
     for i in 0..n {
-        let name = format!("{}{}", prefix, i);
+        // one run in three: the last file has a name no key can denote (leading
+        // backslash) -- still a plain file of the directory, counted and evictable
+        // like the others (decided from values already drawn: tapes keep their meaning)
+        let odd = i + 1 == n && n >= 2 && (spacing == 137 || spacing == 1_000_000);
+        let name = if odd { format!("\\{}{}", prefix, i) } else { format!("{}{}", prefix, i) };
         let rank = t.draw(domain as u64) as i64;
         let mtime = now - 600_000_000_000 - (domain - rank) * spacing;
         let marked = t.draw(2) == 1;
